@@ -112,7 +112,23 @@ pub fn judge(op: u8, a: f64, b: f64, l: Option<&mut Local>) -> Verdict {
     }
 }
 
+pub fn hist_judge(c: &crate::hist::HCall, l: Option<&mut Local>) -> Verdict {
+    use crate::api::Op;
+    let k = match c.as_op() {
+        Some(Op::new_add) => 0,
+        Some(Op::new_sub) => 1,
+        Some(Op::new_mul) => 2,
+        Some(Op::new_div) => 3,
+        Some(Op::from_f64) => 4,
+        _ => return Verdict::Skip,
+    };
+    judge(k, c.a[0], c.b[0], l)
+}
+
 pub fn replay(call: &str, _clause: &str, args: &[u64]) -> Verdict {
+    if call == "hist" {
+        return crate::hist::replay(args, &hist_judge);
+    }
     let op = match call {
         "new_add" => 0,
         "new_sub" => 1,
@@ -235,4 +251,19 @@ pub fn run(r: &mut Runner) {
     });
     r.add_sample(json!({"call": "new_add", "a": hexf(mk_f64(false, 0, fr_a[3]).unwrap()), "b": hexf(mk_f64(true, -7, fr_b[5]).unwrap())}));
     r.add_sample(json!({"call": "new_mul", "a": hexf(mk_subnormal(false, fr_a[9])), "b": hexf(mk_f64(true, 1000, fr_b[5]).unwrap())}));
+    {
+        use crate::api::Op;
+        use crate::hist::HCall;
+        let mut groups: Vec<Vec<HCall>> = vec![];
+        for (a, b) in [(1.5, 1e-17), (3.0, 7.0), (1e300, -1e284), (0.1, 0.3)] {
+            let mut g = vec![];
+            for op in [Op::new_add, Op::new_sub, Op::new_mul, Op::new_div] {
+                g.push(HCall::op(op, [a, 0.0], [b, 0.0]));
+                g.push(HCall::op(op, [b, 0.0], [a, 0.0]));
+            }
+            g.push(HCall::op(Op::new_add, [a, 0.0], [-b, 0.0]));
+            groups.push(g);
+        }
+        crate::hist::explore(r, "histories: two-word constructors (operand orders, signs)", &groups, 3, &hist_judge, 1u64 << 62);
+    }
 }
